@@ -42,6 +42,9 @@ def check_pkg(case) -> list[Fail]:
     f: list[Fail] = []
     mods = [modgen.mk_module(m) for m in case["modules"]]
     exts = [extgen.mk_extension(e) for e in case["exts"]]
+    if case["exts"] and case["cut"] % 3 == 0:
+        # a package may list two versions of one extension: both are kept, in their positions
+        exts.append(extgen.mk_extension(dict(case["exts"][0], version=[9, 9, 9], vsuffix="")))
     if mods and exts and exts[0].operations:
         # a node of the first module names an operation of the first bundled extension, with a description of its
         # own: decoding the package does not resolve (and so does not rewrite) the modules
